@@ -51,6 +51,7 @@ def configs(w):
         'passchain': b'[snoopy]\nfilter_chain = only_root;exclude_uid:5\noutput = file:%s/log\n' % w.encode(),
         'errlog': b'[snoopy]\nerror_logging = yes\nmessage_format = %%{nosuch} %%{failure}\noutput = file:%s/log\n' % w.encode(),
         'garbage': bytes(range(1, 256)) * 3 + b'\n[snoopy\nmessage_format\n=\n',
+        'dupoutput': b'[snoopy]\noutput = file:%s/log\noutput = stdout\noutput = devnull\n  stderr\n' % w.encode(),
         'filemissingdir': b'[snoopy]\noutput = file:%s/no/such/dir/log\n' % w.encode(),
     }
     return c
